@@ -24,6 +24,7 @@ import (
 	"sort"
 	"strconv"
 	"strings"
+	"syscall"
 	"time"
 
 	"go/version"
@@ -1357,6 +1358,203 @@ func caseCopy() {
 	vout.Case(true, fields...)
 }
 
+// ---------------------------------------------------------------- descriptors
+
+// fdBucket wraps a bucket and counts the readers and writers that are open.
+// With budget > 0, NewReader fails like open(2) does at RLIMIT_NOFILE (EMFILE)
+// when `budget` readers are already open.
+type fdState struct {
+	openR, peakR, openW, budget int
+	refused                      int
+}
+type fdBucket struct {
+	storage.BucketHandle
+	st *fdState
+}
+type fdObject struct {
+	storage.ObjectHandle
+	st *fdState
+}
+type fdReader struct {
+	io.ReadCloser
+	st     *fdState
+	closed bool
+}
+type fdWriter struct {
+	io.WriteCloser
+	st     *fdState
+	closed bool
+}
+
+func (b *fdBucket) Object(name string) storage.ObjectHandle {
+	return &fdObject{b.BucketHandle.Object(name), b.st}
+}
+func (o *fdObject) NewReader(ctx context.Context) (io.ReadCloser, error) {
+	if o.st.budget > 0 && o.st.openR >= o.st.budget {
+		o.st.refused++
+		return nil, &os.PathError{Op: "open", Path: "object", Err: syscall.EMFILE}
+	}
+	r, err := o.ObjectHandle.NewReader(ctx)
+	if err != nil {
+		return nil, err
+	}
+	o.st.openR++
+	if o.st.openR > o.st.peakR {
+		o.st.peakR = o.st.openR
+	}
+	return &fdReader{r, o.st, false}, nil
+}
+func (r *fdReader) Close() error {
+	if !r.closed {
+		r.closed = true
+		r.st.openR--
+	}
+	return r.ReadCloser.Close()
+}
+func (o *fdObject) NewWriter(ctx context.Context) (io.WriteCloser, error) {
+	w, err := o.ObjectHandle.NewWriter(ctx)
+	if err != nil {
+		return nil, err
+	}
+	o.st.openW++
+	return &fdWriter{w, o.st, false}, nil
+}
+func (w *fdWriter) Close() error {
+	if !w.closed {
+		w.closed = true
+		w.st.openW--
+	}
+	return w.WriteCloser.Close()
+}
+
+func openFDs() (count, maxfd int) {
+	ents, _ := os.ReadDir("/proc/self/fd")
+	for _, en := range ents {
+		if n, err := strconv.Atoi(en.Name()); err == nil {
+			count++
+			if n > maxfd {
+				maxfd = n
+			}
+		}
+	}
+	return count - 1, maxfd // minus the descriptor of the ReadDir itself
+}
+
+// fd: a day with MORE stored reports than descriptors available for readers:
+// either the counting bucket with a budget, or the real RLIMIT_NOFILE lowered
+// for the duration of the request.  Observed: status, count, the merged
+// records, the peak number of readers open at once, what is still open after
+// the request (counting bucket and /proc/self/fd), then a chart of the day.
+func caseFD() {
+	e := newEnv()
+	defer e.close()
+	date := genStart().Format(telemetry.DateOnly)
+	n := 8 + vrnd.Intn(50)
+	if vrnd.Chance(10) {
+		n = vrnd.Intn(4)
+	}
+	useRlimit := vrnd.Chance(35)
+	budget := 1 + vrnd.Intn(6)
+	var objs []stored
+	for i := 0; i < n; i++ {
+		r := genReport(nil, Pick(vrnd, weekPool[:4]), nil, 0)
+		data := append(mustJSON(r), '\n')
+		objs = append(objs, stored{fmt.Sprintf("%s/%g-%d.json", date, r.X, i), data, decodeFirst(data)})
+	}
+	if vrnd.Chance(10) && n > 0 {
+		i := vrnd.Intn(n)
+		objs[i].data = genMalformedObject()
+		objs[i].rep = decodeFirst(objs[i].data)
+	}
+	inOrder := e.store(date, objs)
+	st := &fdState{}
+	api := &storage.API{Upload: &fdBucket{e.api.Upload, st}, Merge: &fdBucket{e.api.Merge, st}, Chart: &fdBucket{e.api.Chart, st}}
+	fdBefore, maxfd := openFDs()
+	var old syscall.Rlimit
+	if useRlimit {
+		syscall.Getrlimit(syscall.RLIMIT_NOFILE, &old)
+		budget = 6 // descriptors above the highest one in use: the writer, the directory walk, and room for a few readers
+		lim := old
+		lim.Cur = uint64(maxfd + 1 + budget)
+		if err := syscall.Setrlimit(syscall.RLIMIT_NOFILE, &lim); err != nil {
+			useRlimit = false
+		}
+	}
+	if !useRlimit {
+		st.budget = budget
+	}
+	status, body := serve(handleMerge(api), "/merge/?date="+date)
+	if useRlimit {
+		syscall.Setrlimit(syscall.RLIMIT_NOFILE, &old)
+	}
+	fdAfter, _ := openFDs()
+	count := int64(-1)
+	if m := mergedRE.FindStringSubmatch(body); m != nil {
+		count, _ = strconv.ParseInt(m[1], 10, 64)
+	}
+	fields := []string{"fd", B(useRlimit), I(int64(budget)), I(int64(len(inOrder)))}
+	for _, o := range inOrder {
+		if o.rep == nil {
+			fields = append(fields, "bad")
+		} else {
+			fields = append(fields, "good")
+			fields = append(fields, projTokens(o.rep)...)
+		}
+	}
+	fields = append(fields, status, I(count))
+	var recs []*telemetry.Report
+	torn := false
+	if file, err := os.ReadFile(filepath.Join(e.dir, "merged", date+".json")); err == nil {
+		dec := json.NewDecoder(bytes.NewReader(file))
+		for dec.More() {
+			var r telemetry.Report
+			if err := dec.Decode(&r); err != nil {
+				torn = true
+				break
+			}
+			recs = append(recs, &r)
+		}
+	}
+	fields = append(fields, B(torn), I(int64(len(recs))))
+	for _, r := range recs {
+		fields = append(fields, projTokens(r)...)
+	}
+	fields = append(fields, I(int64(st.peakR)), I(int64(st.openR)), I(int64(st.openW)), I(int64(fdAfter-fdBefore)))
+	// the chart of the day through the same counting buckets (no budget)
+	st.budget = 0
+	st.peakR = 0
+	cst, _ := serve(handleChart(tconfig.NewConfig(genConfig(false)), api), "/chart/?date="+date)
+	fdAfter2, _ := openFDs()
+	fields = append(fields, cst, I(int64(st.peakR)), I(int64(st.openR)), I(int64(st.openW)), I(int64(fdAfter2-fdBefore)))
+	if useRlimit {
+		vout.Note("fd-real-RLIMIT_NOFILE-lowered")
+	} else {
+		vout.Note("fd-reader-budget")
+	}
+	if n > budget {
+		vout.Note("fd-more-reports-than-descriptors")
+	}
+	vout.Case(true, fields...)
+}
+
+// watchdog: a case that does not finish is reported with its number, and the
+// harness ends cleanly so that the check can name it.
+func runCase(i int, name string, f func()) {
+	done := make(chan struct{})
+	go func() {
+		defer close(done)
+		f()
+	}()
+	select {
+	case <-done:
+	case <-time.After(120 * time.Second):
+		vout.Case(true, "hang", name, I(int64(i)))
+		vout.Close()
+		os.RemoveAll(vroot)
+		os.Exit(0)
+	}
+}
+
 func vhMain() {
 	slog.SetDefault(slog.New(slog.NewTextHandler(io.Discard, nil)))
 	outPath := os.Args[1]
@@ -1370,27 +1568,36 @@ func vhMain() {
 		panic(err)
 	}
 	defer os.RemoveAll(vroot)
+	// warm up the runtime's poller so that descriptor counts taken later compare like with like
+	if f, err := os.CreateTemp(vroot, "warm"); err == nil {
+		f.Close()
+	}
+	openFDs()
 	for i := 0; i < n; i++ {
-		switch k := i % 20; {
-		case k < 5:
-			caseMerge()
-		case k == 5:
-			caseReadRaw()
-		case k < 14:
-			caseChart()
-		case k < 16:
-			caseSeq()
-		case k == 16:
-			caseChartBadRange()
-			caseCopy()
-		case k == 17:
-			caseGMM()
-			caseGMM()
-			caseGMM()
-		default:
-			caseSplit()
-			caseSplit()
-		}
+		k := i % 20
+		runCase(i, fmt.Sprintf("slot-%d", k), func() {
+			switch {
+			case k < 5:
+				caseMerge()
+			case k == 5:
+				caseReadRaw()
+				caseFD()
+			case k < 14:
+				caseChart()
+			case k < 16:
+				caseSeq()
+			case k == 16:
+				caseChartBadRange()
+				caseCopy()
+			case k == 17:
+				caseGMM()
+				caseGMM()
+				caseGMM()
+			default:
+				caseSplit()
+				caseSplit()
+			}
+		})
 	}
 	vout.Close()
 }
